@@ -23,18 +23,31 @@
 /* ------------------------------------------------------------------ */
 /* catalogue                                                            */
 
-struct stream { unsigned char *b; size_t n; char tag[56]; char cls[40]; int group; };
+struct stream {
+	unsigned char *b; size_t n; char tag[56]; char cls[40]; int group;
+	int capcuts;               /* 0 = no cap, else at most this many cuts for this stream */
+	int nsel; size_t *sel;     /* long streams: named cut positions (see stream_nsegs) */
+};
 static struct stream *cat; static int ncat, capcat;
 static uint64_t *cum;           /* cum[i] = first item index of stream i; cum[ncat] = total */
-static int max_cuts = 1;
+static int max_cuts = 1, maxlen3 = 0;   /* triples of cuts only for streams of at most maxlen3 bytes */
+static int cur_capcuts = 0;
 
-enum { G_RL = 1, G_HS = 2, G_CH = 4, G_BL = 8, G_PIPE = 16, G_EOL = 32 };
+enum { G_RL = 1, G_HS = 2, G_CH = 4, G_BL = 8, G_PIPE = 16, G_EOL = 32, G_LONG = 64, G_PIPE3 = 128, G_HS2 = 256 };
 
 static void add_stream(int group, const char *tag, const char *suffix, const unsigned char *b, size_t n)
 {
 	if (ncat == capcat) { capcat = capcat ? capcat * 2 : 256; cat = realloc(cat, sizeof(*cat) * (size_t)capcat); }
 	struct stream *s = &cat[ncat++];
 	s->b = malloc(n + 1); memcpy(s->b, b, n); s->b[n] = 0; s->n = n; s->group = group;
+	s->capcuts = cur_capcuts; s->nsel = 0; s->sel = NULL;
+	if (group == G_LONG) {
+		/* named cuts: 1, every 97th byte, every position in [960,1000] (an evbuffer chain holds
+		 * 976 payload bytes: the first chain boundary of the connection's input buffer), n-1 */
+		s->sel = malloc(sizeof(size_t) * 80);
+		for (size_t c = 1; c < n; c++)
+			if (c == 1 || c % 97 == 0 || (c >= 960 && c <= 1000) || c == n - 1) s->sel[s->nsel++] = c;
+	}
 	/* "class|variant": the class names the failure key, the variant only appears in messages */
 	const char *bar = strchr(tag, '|');
 	if (bar) { snprintf(s->cls, sizeof s->cls, "%.*s", (int)(bar - tag), tag); snprintf(s->tag, sizeof s->tag, "%.*s:%s%s", (int)(bar - tag), tag, bar + 1, suffix); }
@@ -293,6 +306,69 @@ static void build_catalogue(int groups)
 				add_stream(G_PIPE, firsts[i].tag, "", b.d, b.n);
 			}
 
+	/* ---- three pipelined messages ---- */
+	static const struct ent thirds[] = {
+		E("", "GET /3 HTTP/1.1\r\nHost: c\r\n\r\n"),
+		E("", "POST /3 HTTP/1.1\r\nContent-Length: 2\r\n\r\nzz"),
+		E("", "GET /3 HT"),
+	};
+	if (groups & G_PIPE3)
+		for (size_t i = 0; i < sizeof firsts / sizeof firsts[0]; i++)
+			for (size_t k = 0; k < 3; k++)
+				for (size_t m = 0; m < sizeof thirds / sizeof thirds[0]; m++) {
+					struct buf b; b.n = 0; char tag[56];
+					bput(&b, firsts[i].text, firsts[i].len); bput(&b, seconds[k].text, seconds[k].len); bput(&b, thirds[m].text, thirds[m].len);
+					snprintf(tag, sizeof tag, "p3%s", firsts[i].tag + 2);
+					add_stream(G_PIPE3, tag, "", b.d, b.n);
+				}
+
+	/* ---- pairs of header sets on one POST (one cut + byte-at-a-time only) ---- */
+	if (groups & G_HS2) {
+		cur_capcuts = 1;
+		for (size_t i = 0; i < sizeof hss / sizeof hss[0]; i++)
+			for (size_t j = 0; j < sizeof hss / sizeof hss[0]; j++) {
+				if (i == j) continue;
+				struct buf b; b.n = 0; char tag[56];
+				bputs(&b, "POST /p HTTP/1.1\r\n"); bput(&b, hss[i].text, hss[i].len); bput(&b, hss[j].text, hss[j].len);
+				bputs(&b, "\r\nabc"); bputs(&b, PIPE2);
+				const char *ti = hss[i].tag + 3, *tj = hss[j].tag + 3;
+				snprintf(tag, sizeof tag, "h2:%.*s|%.*s", (int)strcspn(ti, "|"), ti, (int)strcspn(tj, "|"), tj);
+				add_stream(G_HS2, tag, "", b.d, b.n);
+			}
+		cur_capcuts = 0;
+	}
+
+	/* ---- long streams: CR|LF pairs at every offset around the first evbuffer chain boundary (976) ---- */
+	if (groups & G_LONG) {
+		struct buf b; char tag[56];
+		/* request line whose CR sits at offset 975 */
+		b.n = 0; bputs(&b, "GET /"); for (int i = 0; i < 961; i++) bputs(&b, "a"); bputs(&b, " HTTP/1.1\r\nHost: a\r\n\r\n" PIPE2);
+		add_stream(G_LONG, "long:request-line-cr-at-975", "", b.d, b.n);
+		/* the empty line ending the header section has its CR at 975 */
+		b.n = 0; bputs(&b, "GET / HTTP/1.1\r\nX-Pad: "); while (b.n < 973) bputs(&b, "a"); bputs(&b, "\r\n\r\n" PIPE2);
+		add_stream(G_LONG, "long:blank-line-cr-at-975", "", b.d, b.n);
+		/* 180 six-byte header lines, shifted by 0..5: some CR|LF straddles every offset */
+		for (int pad = 0; pad < 6; pad++) {
+			b.n = 0; bputs(&b, "GET / HTTP/1.1\r\nX-Pad: "); for (int i = 0; i < pad; i++) bputs(&b, "a"); bputs(&b, "\r\n");
+			for (int i = 0; i < 180; i++) bputs(&b, "H: v\r\n");
+			bputs(&b, "\r\n" PIPE2);
+			snprintf(tag, sizeof tag, "long:header-lines|pad%d", pad);
+			add_stream(G_LONG, tag, "", b.d, b.n);
+		}
+		/* 150 seven-byte chunks ("2 CRLF ab CRLF"), shifted by 0..6 */
+		for (int pad = 0; pad < 7; pad++) {
+			b.n = 0; bputs(&b, "POST /p HTTP/1.1\r\nX-Pad: "); for (int i = 0; i < pad; i++) bputs(&b, "a");
+			bputs(&b, "\r\nTransfer-Encoding: chunked\r\n\r\n");
+			for (int i = 0; i < 150; i++) bputs(&b, "2\r\nab\r\n");
+			bputs(&b, "0\r\nT: v\r\n\r\n" PIPE2);
+			snprintf(tag, sizeof tag, "long:chunks|pad%d", pad);
+			add_stream(G_LONG, tag, "", b.d, b.n);
+		}
+		/* Content-Length body of 990 bytes followed by a pipelined request */
+		b.n = 0; bputs(&b, "POST /p HTTP/1.1\r\nContent-Length: 990\r\n\r\n"); for (int i = 0; i < 990; i++) bputs(&b, "b"); bputs(&b, PIPE2);
+		add_stream(G_LONG, "long:cl-body-then-request", "", b.d, b.n);
+	}
+
 	/* ---- bare LF as line terminator (§2.2 latitude) ---- */
 	static const struct ent eols[] = {
 		E("eol:lf-get", "GET / HTTP/1.1\nHost: a\n\n" PIPE2),
@@ -308,11 +384,61 @@ static void build_catalogue(int groups)
 			add_stream(G_EOL, eols[i].tag, "", (const unsigned char *)eols[i].text, eols[i].len);
 }
 
-static uint64_t nsegs(size_t L)
+static uint64_t choose2(uint64_t m) { return m < 2 ? 0 : m * (m - 1) / 2; }
+static uint64_t choose3(uint64_t m) { return m < 3 ? 0 : m * (m - 1) * (m - 2) / 6; }
+static int eff_cuts(const struct stream *st) { return st->capcuts && st->capcuts < max_cuts ? st->capcuts : max_cuts; }
+
+/* Segmentations of one stream, in index order:
+ *   0                         one write
+ *   small streams:  L-1 single cuts; all pairs (cuts>=2); all triples (cuts>=3 and L <= maxlen3)
+ *   long streams:   cuts=1: the named single cuts; cuts>=2: all L-1 single cuts + all pairs of named cuts
+ *   last                      byte-at-a-time */
+static uint64_t stream_nsegs(const struct stream *st)
 {
-	uint64_t n = 1 + (L - 1) + 1;
-	if (max_cuts >= 2 && L >= 3) n += (uint64_t)(L - 1) * (L - 2) / 2;
+	size_t L = st->n; int mc = eff_cuts(st);
+	uint64_t n = 2;
+	if (st->nsel) {
+		if (mc >= 2) n += (L - 1) + choose2((uint64_t)st->nsel); else n += (uint64_t)st->nsel;
+		return n;
+	}
+	n += L - 1;
+	if (mc >= 2) n += choose2(L - 1);
+	if (mc >= 3 && (int)L <= maxlen3) n += choose3(L - 1);
 	return n;
+}
+
+static void decode_seg(const struct stream *st, uint64_t seg, size_t cuts[3], int *nc, int *bytewise)
+{
+	size_t L = st->n; int mc = eff_cuts(st);
+	*nc = 0; *bytewise = 0;
+	if (seg == 0) return;
+	if (seg == stream_nsegs(st) - 1) { *bytewise = 1; return; }
+	seg -= 1;
+	if (st->nsel) {
+		if (mc < 2) { cuts[0] = st->sel[seg]; *nc = 1; return; }
+		if (seg < L - 1) { cuts[0] = (size_t)seg + 1; *nc = 1; return; }
+		seg -= L - 1;
+		int a = 0;
+		while (seg >= (uint64_t)(st->nsel - 1 - a)) { seg -= (uint64_t)(st->nsel - 1 - a); a++; }
+		cuts[0] = st->sel[a]; cuts[1] = st->sel[a + 1 + (int)seg]; *nc = 2;
+		return;
+	}
+	if (seg < L - 1) { cuts[0] = (size_t)seg + 1; *nc = 1; return; }
+	seg -= L - 1;
+	if (seg < choose2(L - 1)) {
+		size_t k1 = 1;
+		while (seg >= (uint64_t)(L - 1 - k1)) { seg -= (uint64_t)(L - 1 - k1); k1++; }
+		cuts[0] = k1; cuts[1] = k1 + 1 + (size_t)seg; *nc = 2;
+		return;
+	}
+	seg -= choose2(L - 1);
+	{	/* triple k1 < k2 < k3 over 1..L-1 */
+		size_t k1 = 1, k2;
+		while (seg >= choose2(L - 1 - k1)) { seg -= choose2(L - 1 - k1); k1++; }
+		k2 = k1 + 1;
+		while (seg >= (uint64_t)(L - 1 - k2)) { seg -= (uint64_t)(L - 1 - k2); k2++; }
+		cuts[0] = k1; cuts[1] = k2; cuts[2] = k2 + 1 + (size_t)seg; *nc = 3;
+	}
 }
 
 /* ------------------------------------------------------------------ */
@@ -365,16 +491,8 @@ static void cfg_server(struct srv *s, void *arg)
 static void run_stream(const struct stream *st, uint64_t seg, struct outcome *o, int keep)
 {
 	struct srv *s = &o->s;
-	size_t L = st->n, cuts[2]; int nc = 0, bytewise = 0;
-	if (seg == 0) nc = 0;
-	else if (seg <= L - 1) { cuts[0] = (size_t)seg; nc = 1; }
-	else if (seg == nsegs(L) - 1) bytewise = 1;
-	else {
-		/* pair index → (k1 < k2) over 1..L-1 */
-		uint64_t p = seg - L; size_t k1 = 1;
-		while (p >= (uint64_t)(L - 1 - k1)) { p -= (uint64_t)(L - 1 - k1); k1++; }
-		cuts[0] = k1; cuts[1] = k1 + 1 + (size_t)p; nc = 2;
-	}
+	size_t L = st->n, cuts[3]; int nc = 0, bytewise = 0;
+	decode_seg(st, seg, cuts, &nc, &bytewise);
 	if (srv_open(s, cfg_server, NULL) < 0) { o->text = NULL; o->len = 0; return; }
 	if (bytewise) srv_send_bytewise(s, st->b, L);
 	else srv_send_segmented(s, st->b, L, cuts, nc);
@@ -562,14 +680,14 @@ static void item(uint64_t it)
 	}
 	run_stream(st, seg, &o, 0);
 	MC_COUNT("a_segmentations_compared");
-	if (seg == nsegs(st->n) - 1) MC_COUNT("a_bytewise_compared");
+	if (seg == stream_nsegs(st) - 1) MC_COUNT("a_bytewise_compared");
 	if (!o.text || !base_text || o.len != base_len || memcmp(o.text, base_text, o.len)) {
 		char key[160];
 		/* keyed by catalogue group (rl hs te ch bl pp eol): one broken reader shows up in many
 		 * classes at once, and every distinct key costs two replays; the class is in the message */
 		snprintf(key, sizeof key, "C23/segmentation-dependent/%.*s", (int)strcspn(st->cls, ":"), st->cls);
 		mc_fail(key, "stream class %s, segmentation %llu of %llu: outcome\n  %s\ndiffers from the unsegmented outcome\n  %s", st->tag,
-		    (unsigned long long)seg, (unsigned long long)nsegs(st->n), o.text ? o.text : "(none)", base_text ? base_text : "(none)");
+		    (unsigned long long)seg, (unsigned long long)stream_nsegs(st), o.text ? o.text : "(none)", base_text ? base_text : "(none)");
 	}
 	finish_run(&o, st);
 	free(o.text);
@@ -584,19 +702,23 @@ int main(int argc, char **argv)
 	for (int i = 1; i + 1 < argc; i++)
 		if (!strcmp(argv[i], "-P")) {
 			if (!strncmp(argv[i + 1], "cuts=", 5)) max_cuts = atoi(argv[i + 1] + 5);
+			if (!strncmp(argv[i + 1], "maxlen3=", 8)) maxlen3 = atoi(argv[i + 1] + 8);
 			if (!strncmp(argv[i + 1], "group=", 6)) g = argv[i + 1] + 6;
 		}
-	if (!strcmp(g, "all")) groups = ~0;
+	if (!strcmp(g, "all")) groups = G_RL | G_HS | G_CH | G_BL | G_PIPE | G_EOL;
 	if (strstr(g, "rl")) groups |= G_RL;
-	if (strstr(g, "hs")) groups |= G_HS;
+	if (strstr(g, "hs") && !strstr(g, "hs2")) groups |= G_HS;
 	if (strstr(g, "ch")) groups |= G_CH;
 	if (strstr(g, "bl")) groups |= G_BL;
-	if (strstr(g, "pipe")) groups |= G_PIPE;
+	if (strstr(g, "pipe") && !strstr(g, "pipe3")) groups |= G_PIPE;
+	if (strstr(g, "pipe3")) groups |= G_PIPE3;
+	if (strstr(g, "long")) groups |= G_LONG;
+	if (strstr(g, "hs2")) groups |= G_HS2;
 	if (strstr(g, "eol")) groups |= G_EOL;
 	build_catalogue(groups);
 	cum = malloc(sizeof(uint64_t) * (size_t)(ncat + 1));
 	uint64_t t = 0;
-	for (int i = 0; i < ncat; i++) { cum[i] = t; t += nsegs(cat[i].n); }
+	for (int i = 0; i < ncat; i++) { cum[i] = t; t += stream_nsegs(&cat[i]); }
 	cum[ncat] = t;
 	struct mc_config cfg = { .property = "C23", .init = init, .n_items = t, .item = item };
 	return mc_main(argc, argv, &cfg);
